@@ -196,6 +196,10 @@ pub fn filter_case_with(cfg: GenCfg, nctx: usize, ch: &mut Choices<'_>, st: &mut
             if shape.nested {
                 st.class("nested-call");
             }
+            // a call result indexed by a path of two steps (`f(a[*])[*][0]`, `f(a[*])[1][*]`, ...)
+            if text.match_indices(")[").any(|(i, _)| text[i + 2..].find(']').map_or(false, |j| text[i + 2 + j + 1..].starts_with('['))) {
+                st.class("call-result-with-two-step-path");
+            }
             if nt {
                 st.nontrivial(&(&text, c));
                 st.sample("nontrivial", || {
